@@ -55,6 +55,7 @@ struct nv_ghost
   /* content identity of the most recent bulk transfer: `c_n` bytes at `c_ptr` hold content `c_id` */
   const void* c_ptr; int64_t c_n; uint64_t c_id;
   _Bool size_exact;        /* tensor.h: the last resize() computed the exact product of non-negative dimensions */
+  uint64_t resizes;        /* tensor.h: number of resize() calls */
 } nv_gh;
 #define nv_nfields nv_gh.nfields
 #define nv_f_off nv_gh.f_off
@@ -65,6 +66,7 @@ struct nv_ghost
 #define nv_c_n nv_gh.c_n
 #define nv_c_id nv_gh.c_id
 #define nv_size_exact nv_gh.size_exact
+#define nv_resizes nv_gh.resizes
 uint64_t nv_g;                /* ghost field index (input: never assigned) */
 uint64_t __CPROVER_uninterpreted_slice(int64_t pos, int64_t n);     /* identity of bytes[pos, pos+n) of the stream under read */
 uint64_t __CPROVER_uninterpreted_hash(uint64_t content, int64_t n); /* detail::hash as a function of content */
